@@ -242,8 +242,9 @@ class DaskPCA(PCA):
             random_state = check_random_state(self.random_state)
             seed = draw_seed(random_state, np.iinfo("int32").max)
             n_power_iter = self.iterated_power
+            # NOTE: plain power iterations lose the smaller components in float32.
             U, S, V = da.linalg.svd_compressed(
-                X, n_components, n_power_iter=n_power_iter, seed=seed
+                X, n_components, iterator="QR", n_power_iter=n_power_iter, seed=seed
             )
         components, singular_values = V, S
 
